@@ -293,7 +293,14 @@ func (p *parser) processCtl(nodes []node, root *node, ctl []byte, pos int) ([]no
 	)
 
 	up = false
-	ct := bytealg.Trim(ctl, ctlTrim)
+	// Strip the delimiters of the tag - exactly them, not every brace and percent sign that stands next to them: a
+	// suffix or a separator may end with one - and the blanks around its content.
+	ct := ctl
+	if len(ct) >= 4 && bytes.HasPrefix(ct, ctlOpen) && bytes.HasSuffix(ct, ctlClose) {
+		ct = bytealg.Trim(ct[2:len(ct)-2], space)
+	} else {
+		ct = bytealg.Trim(ct, ctlTrim)
+	}
 	// Check tpl (print) structure.
 	if reTplPS.Match(ct) || reTplP.Match(ct) || reTplS.Match(ct) || reTpl.Match(ct) || reTplCB.Match(ct) || reTplTernary.Match(ct) || reTplTernaryHelper.Match(ct) {
 		// Sequentially check print structure from the complex to the simplest.
